@@ -502,6 +502,7 @@ Definition stepo (s : cstate) (o : op) : cstate * list Z :=
 (* the implementation's observations arrive as primitive integers *)
 Definition check_case (s : cstate) (steps : list (op * list int)) :=
   @Corr.check cstate op stepo s (map (fun '(o, e) => (o, map Uint63.to_Z e)) steps).
+Arguments check_case _ _%uint63.
 
 (* building worlds from literals *)
 Definition mk_actor (c : code) (d : option addr) (e : option evm_st) : actor :=
